@@ -127,6 +127,15 @@ FOREIGN = {
 }
 
 
+# named only by the scenarios that want them (not part of the default third-party menu)
+FOREIGN_EXTRA = {
+    # a frame from a BLOCK-LISTED device whose payload index contradicts its addresses: the device filter drops it before it is ever
+    # decoded, so the send machinery is the first to look at its header
+    "blocked_bad_idx": lambda fr: " I --- 04:000001 --:------ 04:000001 30C9 003 FC07D0",
+    "blocked_ok": lambda fr: " I --- 04:000001 --:------ 04:000001 30C9 003 0007D0",
+}
+
+
 def _other_ctx(rp: str | None) -> str:
     if not rp:
         return ""
@@ -229,6 +238,8 @@ class QosWorld:
         self.ctx = self.proto._context
         self.tx = Tx(self)
         self.proto.connection_made(self.tx, ramses=True)
+        if params.get("exclude"):  # a block list (device ids whose packets the protocol's filter drops)
+            self.proto._exclude = list(params["exclude"])
         self.loop.settle()
         orig_alert = self.proto._send_impersonation_alert
 
@@ -382,7 +393,7 @@ class QosWorld:
         if "foreign" in dev and self.writes:
             last = self.writes[-1][2]
             for k in sorted(self.params.get("foreign_kinds") or FOREIGN):  # (state-hashing runs name the kinds: every subset x order explodes)
-                if (k, last) not in self.foreign_done and FOREIGN[k](last):
+                if (k, last) not in self.foreign_done and (FOREIGN.get(k) or FOREIGN_EXTRA[k])(last):
                     acts.append((("foreign", k), 1))
         return acts
 
@@ -434,7 +445,7 @@ class QosWorld:
         elif k == "foreign":
             last = self.writes[-1][2]
             self.foreign_done.add((a[1], last))
-            self.deliver({"kind": "foreign", "frame": FOREIGN[a[1]](last)})
+            self.deliver({"kind": "foreign", "frame": (FOREIGN.get(a[1]) or FOREIGN_EXTRA[a[1]])(last)})
         else:
             raise RuntimeError(f"unknown action {a}")
 
